@@ -22,8 +22,11 @@
 // Leak event is tracked by address; what is still outstanding after all objects were destroyed is the leak.
 //
 // One execution = Reset line (written and flushed BEFORE the run starts, so a crash is attributable), the workload
-// with the failure(s) injected - continuing after every error -, ResetObjects, the same workload again without
-// failures on the SAME objects, Destroy, Leak.  The runs are executed by a forked worker; when the worker dies
+// with the failure(s) injected - continuing after every error (cont=restart), or, cont=inplace, repeating exactly the
+// API call that failed with memory available again on the same objects (Rec::call) and then continuing -,
+// ResetObjects, the same workload again without failures on the SAME objects, Destroy, Leak.
+// Every Call event carries r (reported error), f (failure injected), redo (API calls repeated in place) and three
+// digests: d exact representation, s meaning, p product (bytes / results / contents without ids) - see Faults.tla.  The runs are executed by a forked worker; when the worker dies
 // (sanitizer report, SIGSEGV, hang -> alarm) the supervisor appends an ABORT line and forks a new worker that resumes
 // after the job that died.
 #include <asmjit/core.h>
@@ -580,8 +583,11 @@ struct W2 : Workload {
     uint64_t c64[4] = {0x0101010101010101ull, 0x0202020202020202ull, 0x0101010101010101ull, 0x0303030303030303ull};
     size_t off = 0;
     S("pool.add32", pool.add(c64, 32, Out(off)));
-    S("pool.add8", pool.add(&c64[1], 8, Out(off)));
-    S("pool.add16", pool.add(&c64[2], 16, Out(off)));
+    // unrelated constants in descending size (no gaps, no reuse of shared sub-constants): how much a pool shares after a
+    // tolerated internal failure is not part of the contract - W5 judges sharing and gaps by meaning
+    static const uint64_t other8 = 0x0909090909090909ull; static const uint32_t other4 = 0x0A0A0A0Au;
+    S("pool.add8", pool.add(&other8, 8, Out(off)));
+    S("pool.add4", pool.add(&other4, 4, Out(off)));
     S("embed_const_pool", b.embed_const_pool(LC, pool));
     if (data) S("section.data", b.section(data)); else R.skip("section.data");
     S("bind.d", b.bind(LD));
